@@ -24,6 +24,16 @@ func main() {
 		}
 		return
 	}
+	if os.Args[1] == "pgtie" {
+		// translate pgtie <repo>: print the generated PgTie.v (or the reasons it cannot be generated)
+		txt, err := pgtieGenerate(os.Args[2])
+		if err != nil {
+			fmt.Fprintln(os.Stderr, err)
+			os.Exit(1)
+		}
+		fmt.Print(txt)
+		return
+	}
 	repo, out := os.Args[1], os.Args[2]
 	gens := []struct {
 		name string
@@ -31,6 +41,7 @@ func main() {
 	}{
 		{"McpTables.v", genMcpTables},
 		{"Consts.v", genConsts},
+		{"PgTie.v", genPgTie},
 	}
 	failed := false
 	for _, g := range gens {
